@@ -97,3 +97,15 @@ func VerifWithLock(f func()) {
 	time.Sleep(time.Millisecond)
 	cc.lock.Unlock()
 }
+
+// VerifFireTime returns the instant a future is queued for (and whether it is queued): the checks use it to construct
+// futures whose fire instants are exactly equal under the real clock.
+func VerifFireTime(f Future) (time.Time, bool) {
+	fu, ok := f.(*future)
+	if !ok {
+		return time.Time{}, false
+	}
+	cc.lock.Lock()
+	defer cc.lock.Unlock()
+	return fu.fireT, fu.idx >= 0
+}
